@@ -7,9 +7,10 @@ import (
 )
 
 // Trace kinds:
-//   rand  one namespace, 1-2 blobs, seeded schedule of all steps (never enters the window of finding F31a)
-//   f31a  scripted: forced cleanup classifies the file of a commit between setPersist and manager.Add as leaked
-//   f31b  scripted: two namespaces (two backends) share one blob, the first finished write-back clears the flag
+//
+//	rand  one namespace, 1-2 blobs, seeded schedule of all steps (never enters the window of finding F31a)
+//	f31a  scripted: forced cleanup classifies the file of a commit between setPersist and manager.Add as leaked
+//	f31b  scripted: two namespaces (two backends) share one blob, the first finished write-back clears the flag
 func run(c *eng.Ctx) error {
 	nrand := c.N(44, 700)
 	scripted := []string{"f31a/stale", "f31a/reappear", "f31a/live", "f31b/seq", "f31b/race", "f31b/force"}
@@ -391,20 +392,17 @@ func script(c *eng.Ctx, t int, rng *rand.Rand, name string) {
 		}
 		d.backend("n2", true)
 	case "f31b/force":
-		// forced cleanup executed the only task it found (n1); n2's conflict task is added before the final delete
+		// the forced cleanup has executed the only task it found (n1) when n2's conflict handler flags the file
+		// and adds its task; the cleanup's final "delete flag, delete file" removes the copy n2 still needs
 		d.upload(h1, "n1", b)
-		d.until(h1, "idle")
-		d.finish("wi")
-		d.backend("n2", false)
-		d.transfer(b)
-		d.upload(h1, "n1", b)
-		d.until(h1, "idle")
+		d.until(h1, "idle") // the incoming worker stays parked at its first gate: later tasks wait in the channel
 		d.fstart()
 		d.fown(true)
 		d.ffind()
 		for k := 0; k < 8 && !(d.fcpc == "sx" && d.fcx == "ok"); k++ {
 			d.execStep("fc")
 		}
+		d.backend("n2", false)
 		d.upload(h2, "n2", b)
 		d.until(h2, "idle")
 		d.finish("fc")
